@@ -381,6 +381,14 @@ def run_stats(sc, hist, violations):
             for a, c in ev["chg"].items():
                 edited_args.add(a)
                 arg_digest[a] = c["d"]
+                if sc["args"].get(a, {}).get("kind") == "transforms":
+                    bump("a caller-owned TRANSFORMS object was edited in place")
+                    for dc in c["diff"][:3]:
+                        bump("transforms edit: " + dc[:80])
+                else:
+                    known = ("subvar_alias", "datetime_value")
+                    if any(not any(k in dc for k in known) for dc in c["diff"]):
+                        bump("a caller-owned RESPONSE object was edited other than by adding subvar_alias/datetime_value")
                 for dc in c["diff"]:
                     if "subvar_alias" in dc:
                         bump("edit:response+subvar_alias")
